@@ -2,5 +2,5 @@
 # usage: mergeprop.sh <worker> <egrep-regex>  — merge.sh (new files) + copy differing files whose path matches the regex
 W=/tmp/w/$1/verif
 /verif/merge.sh $1 | grep '^DIFF' | sed 's/^DIFF \.\///' | while read f; do
-  if echo "$f" | grep -Eq "$2"; then cp "$W/$f" "/verif/$f"; echo "COPIED $f"; else echo "skipped $f"; fi
+  if echo "$f" | grep -v "^seeded/" | grep -Eq "$2"; then cp "$W/$f" "/verif/$f"; echo "COPIED $f"; else echo "skipped $f"; fi
 done
